@@ -113,6 +113,11 @@ def draw_script(ch, sc, mode):
         elif k == 6:
             out.append([who, "close"])
             closed.add(who)
+            # the peer keeps reading past the end of the data: it meets the
+            # close_notify inside a read (and has to answer it from there)
+            if peer not in closed and ch.draw(3, "op.readclose") != 2:
+                out.append([peer, "read", None, avail[peer] + 1])
+                avail[peer] = 0
         else:
             n = ch.draw(3, "op.small")
             out.append([who, "write", wrote[who], n])
